@@ -231,11 +231,35 @@ func c15Configs(tier string) []c15Cfg {
 		}
 	}
 	// two / three instances: all phase offsets x interval mixes
+	durs := []time.Duration{0, 5 * time.Second}
+	scripts2 := []string{""}
+	sigs2 := []config.SignatureValidationMode{config.SignatureValidationModeVerify}
+	bgs2 := []bool{false}
+	scripts3 := []string{"f"}
+	mixes3 := [][]time.Duration{{I, I, I}}
+	if tier == "thorough" {
+		// full product for several instances as well, a download which takes a third of the interval, unequal intervals for three instances
+		durs = append(durs, 3*time.Minute)
+		scripts2, sigs2, bgs2 = scripts, sigs, []bool{false, true}
+		scripts3 = scripts
+		mixes3 = append(mixes3, []time.Duration{I, 3 * I, I}, []time.Duration{3 * I, I, I})
+		for _, src := range []string{"crl_files", "crl_urls", "cdp"} {
+			for _, sc := range scripts {
+				out = append(out, c15Cfg{N: 1, Intervals: []time.Duration{I}, Dur: 3 * time.Minute, Script: sc, Sig: config.SignatureValidationModeVerify, Source: src})
+			}
+		}
+	}
 	for _, ph := range phases {
 		for _, mix := range [][]time.Duration{{I, I}, {I, 3 * I}, {3 * I, I}} {
-			for _, d := range []time.Duration{0, 5 * time.Second} {
+			for _, d := range durs {
 				for _, src := range []string{"crl_urls", "cdp"} {
-					out = append(out, c15Cfg{N: 2, Intervals: mix, Phases: []time.Duration{ph}, Dur: d, Script: "", Sig: config.SignatureValidationModeVerify, Source: src})
+					for _, sc := range scripts2 {
+						for _, sg := range sigs2 {
+							for _, bg := range bgs2 {
+								out = append(out, c15Cfg{N: 2, Intervals: mix, Phases: []time.Duration{ph}, Dur: d, Script: sc, Sig: sg, Background: bg, Source: src})
+							}
+						}
+					}
 				}
 			}
 		}
@@ -246,7 +270,16 @@ func c15Configs(tier string) []c15Cfg {
 			if ph2 < ph {
 				continue
 			}
-			out = append(out, c15Cfg{N: 3, Intervals: []time.Duration{I, I, I}, Phases: []time.Duration{ph, ph2}, Dur: 0, Script: "f", Sig: config.SignatureValidationModeVerify, Source: "crl_urls"})
+			for _, sc := range scripts3 {
+				for _, mix := range mixes3 {
+					for _, src := range []string{"crl_urls", "cdp"} {
+						if tier != "thorough" && src != "crl_urls" {
+							continue
+						}
+						out = append(out, c15Cfg{N: 3, Intervals: mix, Phases: []time.Duration{ph, ph2}, Dur: 0, Script: sc, Sig: config.SignatureValidationModeVerify, Source: src})
+					}
+				}
+			}
 		}
 	}
 	return out
